@@ -401,13 +401,13 @@ class Facts:
             ge, ne = self._linear(strong)
             q: Aff = c[1]
             if tag == "ge0":
-                if _fm_infeasible(ge + [-q - ONE]):
+                if _fm_infeasible(ge + [-q - ONE], focus_last=True):
                     return True
-                if _fm_infeasible(ge + [q]):
+                if _fm_infeasible(ge + [q], focus_last=True):
                     return False
                 return None
-            pos = _fm_infeasible(ge + [-q - ONE])  # q >= 0 entailed
-            neg = _fm_infeasible(ge + [q - ONE])  # q <= 0 entailed
+            pos = _fm_infeasible(ge + [-q - ONE], focus_last=True)  # q >= 0 entailed
+            neg = _fm_infeasible(ge + [q - ONE], focus_last=True)  # q <= 0 entailed
             is_zero = pos and neg
             non_zero = _fm_infeasible(ge + [q, -q]) or q in ne or (-q) in ne
             if not non_zero and not is_zero:
@@ -446,9 +446,23 @@ class Facts:
         return False
 
 
-def _fm_infeasible(cons: List[Aff], cap: int = 3000) -> bool:
+_REPR_CACHE: Dict[Any, str] = {}
+
+
+def _rkey(a: Any) -> str:
+    r = _REPR_CACHE.get(a)
+    if r is None:
+        r = repr(a)
+        if len(_REPR_CACHE) < 200000:
+            _REPR_CACHE[a] = r
+    return r
+
+
+def _fm_infeasible(cons: List[Aff], cap: int = 3000, focus_last: bool = False) -> bool:
     """Is the system {a >= 0 for a in cons} infeasible over the integers?  (Sound, incomplete:
-    Fourier-Motzkin elimination with integer tightening of every derived constraint.)"""
+    Fourier-Motzkin elimination with integer tightening of every derived constraint.)
+    focus_last: the caller knows that cons[:-1] alone is feasible-or-irrelevant; only the constraints connected (through shared
+    atoms) to the last one can take part in a contradiction, the others are dropped (still sound: fewer constraints)."""
     rows: List[Tuple[Dict[Any, int], int]] = []
     seen = set()
     for a in cons:
@@ -460,6 +474,20 @@ def _fm_infeasible(cons: List[Aff], cap: int = 3000) -> bool:
             continue
         seen.add(a)
         rows.append((dict(a.t), a.c))
+    if focus_last and cons and cons[-1].t and len(rows) > 6:
+        reach = {a for a, _ in cons[-1].t}
+        changed = True
+        keep = [False] * len(rows)
+        while changed:
+            changed = False
+            for i, (d, _) in enumerate(rows):
+                if not keep[i] and any(a in reach for a in d):
+                    keep[i] = True
+                    for a in d:
+                        if a not in reach:
+                            reach.add(a)
+                            changed = True
+        rows = [r for r, k in zip(rows, keep) if k]
     while True:
         new_rows: List[Tuple[Dict[Any, int], int]] = []
         keys = set()
@@ -474,7 +502,6 @@ def _fm_infeasible(cons: List[Aff], cap: int = 3000) -> bool:
             if g > 1:
                 d = {a: k // g for a, k in d.items()}
                 c = c // g  # floor: integer tightening
-            key = (tuple(sorted(((repr(a), k) for a, k in d.items()))), )
             new_rows.append((d, c))
         # keep only the tightest constant per left-hand side
         best: Dict[Any, Tuple[Dict[Any, int], int]] = {}
@@ -490,7 +517,7 @@ def _fm_infeasible(cons: List[Aff], cap: int = 3000) -> bool:
             for a, k in d.items():
                 st = var_stats.setdefault(a, [0, 0])
                 st[0 if k > 0 else 1] += 1
-        v = min(var_stats, key=lambda a: (var_stats[a][0] * var_stats[a][1], repr(a)))
+        v = min(var_stats, key=lambda a: (var_stats[a][0] * var_stats[a][1], _rkey(a)))
         pos = [(d, c) for d, c in rows if d.get(v, 0) > 0]
         neg = [(d, c) for d, c in rows if d.get(v, 0) < 0]
         rest = [(d, c) for d, c in rows if d.get(v, 0) == 0]
